@@ -608,11 +608,16 @@ func decodeCookieArg(dst, src []byte, skipQuotes bool) []byte {
 }
 
 func getCookieKey(dst, src []byte) []byte {
-	n := bytes.IndexByte(src, '=')
-	if n >= 0 {
+	if n := bytes.IndexByte(src, ';'); n >= 0 {
+		// the name is part of the name-value pair, the attributes behind it have none
 		src = src[:n]
 	}
-	return decodeCookieArg(dst, src, false)
+	n := bytes.IndexByte(src, '=')
+	if n < 0 {
+		// a pair without '=' is a value without a name, as in Cookie.ParseBytes
+		return dst[:0]
+	}
+	return decodeCookieArg(dst, src[:n], false)
 }
 
 func warnIfInvalid(value []byte) bool {
